@@ -914,6 +914,8 @@ class EditableParentImpl(BaseParentImpl):
     def new_pandas(self, name, path, data, file_type, sheet):
 
         from modelx.io.pandasio import PandasData
+        if self.model.refmgr.has_spec(data):
+            raise ValueError("data already has its IOSpec in the model")
         spec = self.system.iomanager.new_spec(
             PandasData,
             io_group=self.model.interface,
